@@ -9,7 +9,7 @@ RULE = ("slice parameter pairs (start,len) over {0,1,len-1,len,len+1,2^32,2^63,2
         "file readers, slices of each and slices of slices: creation must succeed iff start+len <= parent length (in N) and then "
         "expose exactly that window (checked by reading it all and by boundary ops); interleaved histories over a parent and up "
         "to 5 slices / copies derived from it (all 2-step interleavings of op pairs, then random ones): an operation may change "
-        "only the stream it is applied to (and the parent, by exactly n, for the slice-here form); the same history on every "
+        "only the stream it is applied to (and the parent, by exactly n, for the slice-here form — also taken from interior slices with lengths beyond the slice but inside the file); seek / skip targets that wrap 2^64 when the slice's start offset is added; the same history on every "
         "backend must give identical observations")
 PROVED = ("creation guard exact in N (incl. wrap-around) and the created slice = abstract reader over exactly the requested window, "
           "for any in-bounds-correct wrapped stream, to any nesting depth; sub-slicing; slice-here advances the parent iff it "
@@ -83,6 +83,30 @@ def cases(tier, rng):
                     if ok and last[2] != f"0/{l}": return f"new slice reports {last[2]}, expected 0/{l}"
                     return None
                 yield Case(f"multi {kind} {hexs(data)} {steps}", check=chk, tag=f"{kind}-slice-here")
+    # slice-here on a slice that does NOT end where its parent ends: the new slice must be contained in THIS slice (not merely in
+    # the file / buffer underneath), and this slice advances by n exactly when it succeeds
+    for kind in ("mem", "file"):
+        for (s0, l0) in ((2, 4), (0, 5), (1, 6)):
+            for p in (0, 1, l0):
+                for l in sorted({0, 1, l0 - p, l0 - p + 1, l0 - p + 2, n - s0 - p, n - s0 - p + 1, 1 << 63, M64, (1 << 64) - p, (1 << 64) - s0 - p}):
+                    if l < 0 or l > M64: continue
+                    ok = p + l <= l0
+                    steps = f"0.S{s0}:{l0},1.s{p},1.H{l}"
+                    def chk2(out, ok=ok, p=p, l=l, l0=l0):
+                        last = out.split(",")[-1].split(":")
+                        if (last[0] == "new") != ok: return f"slice-here of length {l} at {p} on a slice of length {l0}: expected {'success' if ok else 'refusal'}, got {last[0]}"
+                        if last[2] != f"{p + l if ok else p}/{l0}": return f"the slice it was taken from is at {last[2]} afterwards (expected position {p + l if ok else p}, length {l0})"
+                        if ok and last[3] != f"0/{l}": return f"new slice reports {last[3]}, expected 0/{l}"
+                        return None
+                    yield Case(f"multi {kind} {hexs(data)} {steps}", check=chk2, tag=f"{kind}-slice-here-on-interior-slice")
+    # seeks whose target, added to the slice's start offset, wraps around 2^64: refused, position unchanged, on every backend
+    for (s0, l0) in ((2, 4), (1, 7), (3, 0), (5, 3)):
+        tgts = sorted({(1 << 64) - s0 + j for j in (-2, -1, 0, 1) if (1 << 64) - s0 + j < (1 << 64)} | {M64, M64 - 1, (1 << 63) - s0, 1 << 63})
+        ops = ["r1"] + [f"s{t}" for t in tgts] + ["p9", "B"] + [f"f{t}" for t in tgts[:3]] + [f"b{t}" for t in tgts[:3]] + ["r1", "E"]
+        for be in (f"mslice2:{s0}:{l0}", f"fslice:{s0}:{l0}", f"fss:1:7:{s0 - 1}:{min(l0, 7 - (s0 - 1))}", f"fwrap:1:7:{s0 - 1}:{min(l0, 7 - (s0 - 1))}"):
+            w = window(data, be)
+            if w is None: continue
+            yield Case(f"rd.hist {be} {hexs(data)} {','.join(ops)}", expect=spec_hist(w, ops), tag="seek-target-wraps-with-start-offset")
     # interleavings: independence
     def indep_check(steps):
         def chk(out):
